@@ -24,6 +24,7 @@ type KnownFinding struct {
 
 type Baseline struct {
 	Props map[string][]string `json:"props"` // property -> discharged clause keys on the accepted tree
+	Trusted map[string]map[string]string `json:"trusted_bodies,omitempty"` // property -> trusted function -> fingerprint of its body
 }
 
 func loadJSON(path string, v interface{}) error {
@@ -282,7 +283,48 @@ func cmdCheck(args []string) int {
 		}
 		for _, k := range base.Props[prop] {
 			if !seenKey[k] {
-				out.engineErrs = append(out.engineErrs, "clause "+k+" of the baseline produced no obligation on this tree (its anchor is gone or the contract is out of date)")
+				// a clause that was proved on the unchanged tree can no longer even be stated on this one (the function
+				// it belongs to, the loop or the call it is anchored at is gone): the proof of the property has a hole
+				// there. Reported like an obligation that stopped discharging.
+				fn := k
+				if i := strings.Index(k, "/"); i >= 0 {
+					fn = k[:i]
+				}
+				o := &Obligation{Name: k + "@missing", Func: fn, Kind: "missing", ClauseKey: k, Expect: "unsat",
+					Result: &SolverResult{Status: "unknown", Raw: "no obligation is generated for this baseline clause on the current tree: the function, loop or call it is anchored at is gone or changed shape, so what it established for the property is no longer established"}}
+				out.mine = append(out.mine, o)
+				out.violations = append(out.violations, o)
+			}
+		}
+	}
+	// trusted functions: their contracts are assumed, so the only thing that can be checked is that their bodies are
+	// still the ones the assumption was made about (fingerprint of the SSA text, recorded with the baseline)
+	{
+		cur := map[string]string{}
+		for _, r := range out.runs {
+			for name, fp := range r.trustedFP {
+				cur[name] = fp
+			}
+		}
+		if *writeBaseline {
+			if base.Trusted == nil {
+				base.Trusted = map[string]map[string]string{}
+			}
+			base.Trusted[prop] = cur
+		} else {
+			for name, want := range base.Trusted[prop] {
+				got, ok := cur[name]
+				if ok && got == want {
+					continue
+				}
+				why := "the body of " + name + " differs from the one its assumed (trusted) contract was written for"
+				if !ok {
+					why = "the trusted function " + name + " is no longer called where the baseline run called it"
+				}
+				o := &Obligation{Name: name + "/trusted-body@fingerprint", Func: name, Kind: "trusted-body", ClauseKey: name + "/trusted-body", Expect: "unsat",
+					Result: &SolverResult{Status: "unknown", Raw: why + "; its contract is an assumption of the proof, not proved, so the change cannot be judged and the assumption no longer stands"}}
+				out.mine = append(out.mine, o)
+				out.violations = append(out.violations, o)
 			}
 		}
 	}
